@@ -66,8 +66,8 @@ NLReqs(ad) == { [q |-> qq, c |-> NLState(AsmSize(ad))] : qq \in {"fint", "kT"} }
 SkF == PD("plate",  A_, R(3,2), RZero,  RZero, ROne, 3, 3, FlPrimes, LamSym, RZero, ROne, R(3,1), Zero3)
 SkG == PD("plate",  A_, R(3,2), RZero,  RZero, ROne, 2, 3, FlMixed,  LamGen, RZero, ROne, R(3,1), Zero3)   \* laminate offset
 SkC == PD("cpanel", A_, R(3,2), R(4,1), RZero, ROne, 2, 3, FlPrimes, LamSym, RZero, ROne, R(2,1), Zero3)
-SkS == PD("plate",  A_, R(3,2), RZero,  RZero, ROne, 2, 2, FlPrimes, LamSym, RZero, ROne, R(3,1), Zero3)   \* 12, under stiffeners
-SkSc == PD("cpanel", A_, R(3,2), R(4,1), RZero, ROne, 2, 2, FlFree,  LamSym, RZero, ROne, R(3,1), Zero3)
+SkS == PD("plate",  A_, R(3,2), RZero,  RZero, ROne, 3, 2, FlPrimes, LamSym, RZero, ROne, R(3,1), Zero3)   \* 18, under stiffeners
+SkSc == PD("cpanel", A_, R(3,2), R(4,1), RZero, ROne, 2, 3, FlFree,  LamSym, RZero, ROne, R(3,1), Zero3)
 Bay(skin, cuts, stiffs) == [kind |-> "bay", skin |-> skin, cuts |-> cuts, stiffs |-> stiffs]
 Cuts0 == <<>>
 Cuts1 == << R(1,2) >>                                   \* non-central (b = 3/2)
